@@ -834,8 +834,12 @@ def oracle_coupling(ctx, rng, nprng, quick):
             cap = CouplingAnalysis(d[:, perm].copy(), silence_level=3)
             allp = cap.cross_correlation(tau_max=tm, lag_mode="all")
             pv, pl = cap.cross_correlation(tau_max=tm, lag_mode="max")
-        if not (np.array_equal(allp, allv[np.ix_(perm, perm)]) and np.array_equal(pv, mv[np.ix_(perm, perm)])
-                and np.array_equal(pl, ml[np.ix_(perm, perm)])):
+        ev, el = mv[np.ix_(perm, perm)], ml[np.ix_(perm, perm)]
+        ea = allv[np.ix_(perm, perm)]
+        lag_ok = all(pl[i, j] == el[i, j]
+                     or abs(abs(ea[i, j, int(pl[i, j])]) - abs(ea[i, j, int(el[i, j])])) < 1e-6   # near tie
+                     for i in range(N) for j in range(N))
+        if not (close(allp, ea, 1e-6) and close(pv, ev, 1e-6) and lag_ok):
             ctx.fail(dict(sig, check="permutation"), "reordering the series does not permute the matrices",
                      dict(P, data=lst(d), perm=perm))
 
@@ -1079,8 +1083,10 @@ def oracle_knn(ctx, rng, nprng, quick):
         N = 2
         tm = rng.choice([0, 1, 2])
         knn = rng.randrange(2, 6)
-        d = np.column_stack([nprng.permutation(8 * T)[:T] / 4.0 + nprng.permutation(T) / 1024.0
-                             for _ in range(N)])
+        # continuous data: exact ties between float32 distances (which the estimator's 1e-10
+        # noise could break differently) have negligible probability
+        d = nprng.randn(T, N)
+        d[1:, 1] += 0.8 * d[:-1, 0]
         np.random.seed(rng.randrange(2 ** 31))
         with quiet():
             ca = CouplingAnalysis(d.copy(), silence_level=3)
